@@ -19,7 +19,8 @@ Enums == << [name |-> "Ea", items |-> <<EItem("Xa", 0), EItem("Xb", 1)>>],      
             [name |-> "Ec", items |-> <<EItem("Za", 1), EItem("Zb", 5), EItem("Zc", 3)>>],   \* width 3
             [name |-> "Ed", items |-> <<EItem("Wa", 17), EItem("Wb", 4)>>],         \* width 5
             [name |-> "Ee", items |-> <<EItem("Va", 0), EItem("Vb", 255)>>],        \* width 8
-            [name |-> "Ef", items |-> <<EItem("Ta", 7), EItem("Tb", 0)>>] >>        \* width 3 (max 7)
+            [name |-> "Ef", items |-> <<EItem("Ta", 7), EItem("Tb", 0)>>],          \* width 3 (max 7)
+            [name |-> "Eg", items |-> <<EItem("Sa0", 0)>>] >>                        \* a single enumerator 0: width 1
 
 Field(n, id, t)    == [name |-> n, id |-> id, type |-> t]
 FieldU(n, id, t, u) == [name |-> n, id |-> id, type |-> t, unit |-> <<u>>]
@@ -39,7 +40,7 @@ ImplR2   == [name |-> "R2", protocol |-> "can", type |-> "Root",
                             [name |-> "a_0", fields |-> <<SigF("scale", [f |-> "0.5"])>>] >>]
 Impls == <<ImplRoot, ImplSin, ImplR2>>
 
-LeafPool == { U(1), U(5), U(8), U(16), I(7), F32, En("Ea"), En("Eb"), En("Ec"), En("Ed"), En("Ee"), En("Ef") }
+LeafPool == { U(1), U(5), U(8), U(16), I(7), F32, En("Ea"), En("Eb"), En("Ec"), En("Ed"), En("Ee"), En("Ef"), En("Eg") }
 ScalarArr == { Arr(t, 2) : t \in {U(5), I(7), En("Ec")} } \cup { Arr(Arr(U(5), 2), 2) }
 StructTs  == { St("Sin"), Arr(St("Sin"), 2) }
 TypePool  == LeafPool \cup ScalarArr \cup StructTs
